@@ -300,10 +300,27 @@ let eval inp obs =
          before the flush (+ the clean mark); the read path after the flush must show the same *)
       let fkh = h fk in
       let bad = ref "" in
+      (* which databases must exist after flush i: those open before it (Q_i) minus the ones the USER dropped
+         since the previous flush (pool: queued drops are executed by the flush, and lost by a restart;
+         flagged: a drop is immediate, Q_i no longer has them) — a database that was written and never
+         dropped since must not disappear *)
+      let dropped_before = (
+        let cur = ref [] and acc = ref [] in
+        List.iter (fun o -> match o with
+          | ["X"; n] -> if mode = "pool" then cur := n :: !cur
+          | ["R"] -> cur := []
+          | ["F"; _] -> acc := !cur :: !acc; cur := []
+          | _ -> ()) ops;
+        Array.of_list (List.rev !acc)) in
       let flushes = List.mapi (fun i p ->
         let id = List.nth flush_ids i in
         let post = parse_snap (List.nth isnaps i) and pre = parse_snap (List.nth ipres i) in
         let exp = expected_snap fkh id pre post in
+        let gone = List.filter (fun (n, _) ->
+          not (List.mem_assoc n post) && not (i < Array.length dropped_before && List.mem n dropped_before.(i))) pre in
+        if gone <> [] && !bad = "" then
+          bad := Printf.sprintf "flush %d (id %s): database %s was open before the flush, was not dropped by the user since the previous flush, and is gone after it"
+                   (i + 1) id (String.concat "," (List.map fst gone));
         if exp <> post && !bad = "" then
           bad := Printf.sprintf "flush %d (id %s): contents read through the producer after the flush [%s] differ from the contents before it plus the clean mark [%s]"
                    (i + 1) id (String.concat ";" (List.map (fun (n, d) -> n ^ "=" ^ d) post))
